@@ -60,7 +60,7 @@ func TestVerifBoundedMapModel(t *testing.T) {
 		}
 		ops = append(ops, op{1, k, 0})
 	}
-	ops = append(ops, op{2, 0, 0}, op{3, 0, 0}, op{4, 0, 0})
+	ops = append(ops, op{2, 0, 0}, op{3, 0, 0}, op{4, 0, 0}, op{5, 0, 0})
 	// the "other" map merged by op 3: two fixed pairs
 	evals, fails := 0, 0
 	report := func(format string, a ...any) {
@@ -171,6 +171,9 @@ func TestVerifBoundedMapModel(t *testing.T) {
 				np[0] = vals[1]
 				np[nk] = vals[0]
 				h = "append{k0,kN}"
+			case 5:
+				nm = m.Append(NewMap())
+				h = "append{}"
 			case 4:
 				if len(present) < 2 {
 					continue
@@ -203,7 +206,7 @@ func TestVerifBoundedMapModel(t *testing.T) {
 	}
 	rec(NewMap(), map[int]Object{}, nil, 0)
 	fmt.Printf("BOUNDED evaluations=%d distinct=%d exhaustive=true bound=%q\n", evals, len(seen),
-		fmt.Sprintf("all sequences of up to %d operations (set with 2 values, delete, rest, merge with a 2-pair map, range prefix) over %d keys of mixed types (int, float, string, bool, nil, array), starting from the empty map; crosses the 4-pair threshold in both directions", maxOps, nk+1))
+		fmt.Sprintf("all sequences of up to %d operations (set with 2 values, delete, rest, merge with a 2-pair map, merge with the empty map, range prefix) over %d keys of mixed types (int, float, string, bool, nil, array), starting from the empty map; crosses the 4-pair threshold in both directions", maxOps, nk+1))
 	if fails > 0 {
 		t.Fatalf("%d failures", fails)
 	}
